@@ -305,6 +305,22 @@ def _svgp(case, ctx, g):
         ctx.close("kl_closed_form", kl_train, _reduce_to(kl_ref_j, kl_train.shape), tol, **kz, cls=cls + ":kl_train", alt=_reduce_to(kl_ref_0, kl_train.shape), strategy=strat, dist=dist, mode="train")
         ctx.close("kl_closed_form_eval", kl_eval, _reduce_to(kl_ref_j, kl_eval.shape), tol, kl_is_zero=bool((kl_eval == 0).all()), cls=cls + ":kl_eval", alt=_reduce_to(kl_ref_0, kl_eval.shape), strategy=strat, dist=dist, mode="eval")
         nontriv = float(kl_ref_0.abs().max()) > 1e-3
+    # the same input buffer refilled in place between two evaluation-mode calls
+    if not ciq:
+        with torch.no_grad():
+            m.eval()
+            m(X)
+            Xn = util.randn(g, *X.shape)
+            X.copy_(Xn)
+            Xe2 = X.expand(*full, N_, D)
+            Kzz_b, Kxz_b, Kxx_b, mz_b, mx_b = _pieces(m, Ze, Xe2)
+            rb_j, cb_j = _closed_form(Kzz_b, Kxz_b, Kxx_b, mz_b, mx_b, mu_j, Su_j, jit, jit if strat != "UnwhitenedVariationalStrategy" else 0.0)
+            rb_0, cb_0 = _closed_form(Kzz_b, Kxz_b, Kxx_b, mz_b, mx_b, mu_0, Su_0, 0.0, 0.0)
+            ob = m(X)
+        ctx.close("qf_mean", ob.mean, rb_j.expand(ob.mean.shape), tol, cls=cls + ":mean:refilled_buffer", alt=rb_0.expand(ob.mean.shape), strategy=strat, dist=dist)
+        ctx.close("qf_covar", ob.covariance_matrix, cb_j.expand(ob.covariance_matrix.shape), tol, cls=cls + ":cov:refilled_buffer", alt=cb_0.expand(ob.covariance_matrix.shape), strategy=strat, dist=dist)
+        Xe = Xe2
+        ref_mean_j, ref_mean_0 = rb_j, rb_0  # X now holds the refilled values
     # mean-only evaluation (skip_posterior_variances) before and after the parameters have moved: still the closed form
     # of the CURRENT parameters
     if not ciq:
@@ -491,6 +507,14 @@ def _grid(case, ctx, g):
         out = m(X)
     ctx.close("grid_interp_qf", out.mean, W @ m_par, "direct", cls="grid:mean")
     ctx.close("grid_interp_qf", out.covariance_matrix, W @ S_par @ W.T, "direct", cls="grid:cov")
+    # the same input BUFFER refilled in place between two evaluation-mode calls (a data loader reusing its tensor)
+    X2 = util.rand(g, 5, 1) * 1.4 - 0.7
+    X.copy_(X2)
+    W2 = I.cubic_weights_1d(grid, X.reshape(-1))
+    with torch.no_grad():
+        out2 = m(X)
+    ctx.close("grid_interp_qf", out2.mean, W2 @ m_par, "direct", cls="grid:mean:refilled_buffer")
+    ctx.close("grid_interp_qf", out2.covariance_matrix, W2 @ S_par @ W2.T, "direct", cls="grid:cov:refilled_buffer")
     ctx.cell({k: v for k, v in case.items() if k != "seed"})
 
 
